@@ -299,6 +299,96 @@ def correspondence(ctx):
             ctx.sample({"op": op, "input": vlib.canon(kw), "model": mo, "impl": io})
     if not ctx.samples and cases:
         ctx.sample({"op": cases[0][0], "input": vlib.canon(cases[0][1]), "model": outs[0]})
+    # glue: GeneInfo built from a gffutils database with a non-zero delta (as the pipeline does)
+    annots = gene_profile_annotations(ctx.rng, 60 if ctx.tier == "quick" else 600)
+    for tr, delta in annots:
+        fails, reqs, exps = gene_profile_case(ctx, tr, delta)
+        mouts = ctx.driver.run(reqs)
+        for (kind, t_id, got), mo in zip(exps, mouts):
+            ctx.evaluations += 1
+            ctx.traces_validated += 1
+            ctx.count("op:gene_profile_" + kind)
+            if isinstance(mo, dict) and mo.get("profile") == got:
+                ctx.mark_nontrivial(["gene_profile", kind, t_id, sorted(tr.items()), delta])
+            else:
+                ctx.disagree("gene_profile_" + kind, {"transcripts": tr, "delta": delta, "t": t_id}, mo, got)
+
+
+
+# ------------------------------------------------------------------------------------------------
+# glue: isoform profiles as the pipeline builds them (GeneInfo from a gffutils db with the data-type delta)
+
+def _make_db(transcripts, strand="+"):
+    import gffutils
+    lines = []
+    gstart = min(e[0][0] for e in transcripts.values())
+    gend = max(e[-1][1] for e in transcripts.values())
+    lines.append('chr1\tsyn\tgene\t%d\t%d\t.\t%s\t.\tgene_id "G1";' % (gstart, gend, strand))
+    for t_id, exons in transcripts.items():
+        lines.append('chr1\tsyn\ttranscript\t%d\t%d\t.\t%s\t.\tgene_id "G1"; transcript_id "%s";'
+                     % (exons[0][0], exons[-1][1], strand, t_id))
+        for e in exons:
+            lines.append('chr1\tsyn\texon\t%d\t%d\t.\t%s\t.\tgene_id "G1"; transcript_id "%s";' % (e[0], e[1], strand, t_id))
+    return gffutils.create_db("\n".join(lines) + "\n", ":memory:", from_string=True, force=True, keep_order=True,
+                              merge_strategy='error', sort_attribute_values=True,
+                              disable_infer_transcripts=True, disable_infer_genes=True)
+
+
+def gene_profile_annotations(rng, n):
+    """isoform sets of one gene whose alternative splice sites differ by a few bases (<= the data-type deltas)"""
+    res = []
+    for _ in range(n):
+        base = 1000 * rng.randint(1, 50)
+        nex = rng.randint(2, 5)
+        exons = []
+        p = base
+        for _ in range(nex):
+            ln = rng.randint(30, 200)
+            exons.append((p, p + ln))
+            p += ln + rng.randint(60, 400)
+        tr = {"T1": exons}
+        for k in range(2, rng.randint(3, 5)):
+            e2 = []
+            for (a, b) in exons:
+                if rng.random() < 0.15 and len(exons) > 2:
+                    continue
+                e2.append((a + rng.choice([0, 0, 0, 1, 3, -2, 5, -6, 12]), b + rng.choice([0, 0, 0, 1, -3, 2, 4, -5, 9])))
+            e2 = [e for e in e2 if e[0] <= e[1]]
+            ok = len(e2) >= 1 and all(e2[i][1] + 1 < e2[i + 1][0] for i in range(len(e2) - 1))
+            if ok and e2 not in tr.values():
+                tr["T%d" % k] = e2
+        res.append((tr, rng.choice([0, 3, 4, 6, 12])))
+    return res
+
+
+def gene_profile_case(ctx, transcripts, delta):
+    """returns (failures, disagreements) for one annotation: real GeneInfo profiles vs set definition and vs the model"""
+    C, GI, LP = _impl()
+    db = _make_db(transcripts)
+    gi = GI.GeneInfo([db["G1"]], db, delta)
+    fails, reqs, exps = [], [], []
+    for kind, prof, cmpname in (("intron", gi.intron_profiles, "equal"), ("exon", gi.exon_profiles, "equal"),
+                                ("split", gi.split_exon_profiles, "contains")):
+        feats = [tuple(f) for f in prof.features]
+        for t_id, exons in transcripts.items():
+            exons = [tuple(e) for e in exons]
+            own = exons if kind != "intron" else [(exons[i][1] + 1, exons[i + 1][0] - 1) for i in range(len(exons) - 1)]
+            region = (exons[0][0], exons[-1][1])
+            got = list(prof.profiles[t_id])
+            exp = []
+            for f in feats:
+                if f[1] < region[0] or f[0] > region[1]:
+                    exp.append(-2)
+                elif kind == "split":
+                    exp.append(1 if any(e[0] <= f[0] and f[1] <= e[1] for e in exons) else -1)
+                else:
+                    exp.append(1 if f in own else -1)
+            if got != exp:
+                fails.append({"kind": kind, "transcript": t_id, "features": feats, "own": own, "delta": delta,
+                              "got": got, "expected": exp})
+            reqs.append(vlib.req("C19.isoform_profile", features=feats, tf=own, region=region, cmp=cmpname))
+            exps.append((kind, t_id, got))
+    return fails, reqs, exps
 
 
 # ------------------------------------------------------------------------------------------------
@@ -457,9 +547,19 @@ def oracle(ctx, disagreements, broken):
             ctx.fail("set_semantics:" + op, {"op": op, "args": kw}, r)
             if len(ctx.failures) > 20:
                 break
+    for tr, delta in gene_profile_annotations(ctx.rng, 80 if ctx.tier == "quick" else 800):
+        fails, _, _ = gene_profile_case(ctx, tr, delta)
+        n += 1
+        for f in fails[:2]:
+            ctx.fail("isoform_profile_glue:" + f["kind"], {"op": "gene_profile", "args": {"transcripts": tr, "delta": delta}},
+                     "isoform %s %s profile %s, expected %s (features %s)" % (f["transcript"], f["kind"], f["got"], f["expected"], f["features"]))
     ctx.extra["oracle_cases"] = n
 
 
 def replay(ctx, failure):
     inp = failure["input"]
+    if inp["op"] == "gene_profile":
+        tr = {k: [tuple(e) for e in v] for k, v in inp["args"]["transcripts"].items()}
+        fails, _, _ = gene_profile_case(ctx, tr, inp["args"]["delta"])
+        return bool(fails)
     return oracle_case(inp["op"], inp["args"]) is not None
